@@ -110,6 +110,22 @@ def judge(case, part):
             back = list(m["rowio"].delimited_rows(path, data_format))
             if back == table:
                 back = list(cutplace.rows(harness.make_cid(cid_rows(config, columns)), path))
+        elif case["path"] == "own-file":
+            # a target the writers open themselves: first a file that does not exist yet (rowio writer), then one that holds other rows (validating writer)
+            path = os.path.join(readermachine.tmpdir(), "c12_own_%d.csv" % os.getpid())
+            if os.path.exists(path):
+                os.remove(path)
+            with m["rowio"].DelimitedRowWriter(path, data_format) as writer:
+                writer.write_rows(table)
+            back = list(m["rowio"].delimited_rows(path, data_format))
+            written = "<file written by the rowio writer>"
+            if back == table:
+                with open(path, "w", newline="", encoding=data_format.encoding) as stale:
+                    stale.write("left" + data_format.item_delimiter + "over" + (data_format.line_delimiter if data_format.line_delimiter in ("\n", "\r", "\r\n") else "\n"))
+                with cutplace.Writer(cid, path) as writer:
+                    writer.write_rows(table)
+                back = list(cutplace.rows(harness.make_cid(cid_rows(config, columns)), path))
+                written = "<file written by the validating writer over an older file>"
         else:
             target = io.StringIO(newline="")
             writer = cutplace.Writer(cid, target)
@@ -170,7 +186,7 @@ def work(item):
         part.outcome("round-trip-same")
         api_tables = [t for t in tables if len(t) == 1 and len(t[0]) <= 2][: (80 if tier == "quick" else 10**6)]
         # the table without rows, through every path
-        for path in ("rowio", "api", "file"):
+        for path in ("rowio", "api", "file", "own-file"):
             judge({"config": list(config), "table": [], "path": path}, part)
         for table in api_tables:
             judge({"config": list(config), "table": table, "path": "api"}, part)
@@ -179,6 +195,8 @@ def work(item):
             file_tables = [t for t in api_tables if any("\r" in c or "\n" in c or c == OTHER_BREAKS for c in t[0])][:10] + api_tables[:3]
         for table in file_tables:
             judge({"config": list(config), "table": table, "path": "file"}, part)
+        for table in file_tables[:4]:
+            judge({"config": list(config), "table": table, "path": "own-file"}, part)
     part.sample({"config": list(configs[0]), "alphabet": alphabet(configs[0]), "tables": len(tables_for(configs[0], tier)), "example table": tables_for(configs[0], tier)[200]}, limit=1)
     return part
 
